@@ -1,5 +1,169 @@
-//! Self-checks of the harness (placeholder).
+//! Self-checks of the harness: determinism proof and seam audit. Neither is part of the
+//! deciding step of any property and neither ever prints a VIOLATION line.
 
-pub fn main(_args: &[String]) -> i32 {
-    0
+use std::collections::{BTreeMap, BTreeSet};
+
+use crate::plan::Tier;
+use crate::supervisor::{run_workers, CheckArgs};
+
+fn args_for(property: &str, cases: u64, workers: usize, seed: u64) -> CheckArgs {
+    CheckArgs {
+        property: property.to_string(),
+        tier: Tier::Quick,
+        seed,
+        cases,
+        workers,
+        verif_dir: format!("/dev/shm/pyxis-sim-selfcheck.{}", std::process::id()),
+        minimise: false,
+        write_evidence: false,
+    }
+}
+
+/// Same seeds, different processes and worker counts: the per-case event-log digests must be
+/// identical. Any difference is a harness bug.
+fn determinism(properties: &[String], cases: u64) -> i32 {
+    let mut bad = 0;
+    for p in properties {
+        let mut runs: Vec<(usize, BTreeMap<u64, u64>)> = vec![];
+        for (workers, seed) in [(16usize, 1u64), (5, 1), (1, 1), (16, 1)] {
+            let n = if workers == 1 { cases / 4 } else { cases };
+            let agg = run_workers(&args_for(p, n, workers, seed));
+            runs.push((workers, agg.case_digests.iter().copied().collect()));
+        }
+        let (_, reference) = &runs[0];
+        let mut diverged: BTreeSet<u64> = BTreeSet::new();
+        let mut compared = 0u64;
+        for (_, other) in &runs[1..] {
+            for (i, d) in other {
+                compared += 1;
+                if reference.get(i) != Some(d) {
+                    diverged.insert(*i);
+                }
+            }
+        }
+        println!(
+            "determinism {p}: {} cases x 4 runs (16, 5, 1, 16 worker processes), {compared} digests compared, {} diverged",
+            reference.len(),
+            diverged.len()
+        );
+        if !diverged.is_empty() {
+            println!(
+                "  diverging case indices: {:?}",
+                diverged.iter().take(10).collect::<Vec<_>>()
+            );
+            bad += 1;
+        }
+    }
+    let _ = std::fs::remove_dir_all(format!(
+        "/dev/shm/pyxis-sim-selfcheck.{}",
+        std::process::id()
+    ));
+    if bad > 0 {
+        println!("harness error: the simulator is not deterministic");
+        2
+    } else {
+        0
+    }
+}
+
+/// The same worlds built with *no* scheduler installed on many fresh threads (real
+/// RandomState): every outcome seen there must be among the outcomes the simulated schedules
+/// produced for that world. Otherwise a source of nondeterminism is not behind a seam.
+fn audit(cases: u64, threads: usize) -> i32 {
+    crate::run::install_panic_hook();
+    let mut missing = 0u64;
+    let mut worlds = 0u64;
+    let mut real_runs = 0u64;
+    let mut real_distinct_outcomes = 0u64;
+    for index in 0..cases {
+        let seed = crate::worker::case_seed(1, "C09", index);
+        let case = crate::props::generate("C09", seed, Tier::Quick);
+        let mut scratch = crate::run::Scratch::for_thread(1_000_000 + index);
+        let digest = |r: &crate::run::RunResult| -> (bool, u64) {
+            let mut d = 0u64;
+            if r.outcome.succeeded() {
+                for (p, b) in r.files() {
+                    d = crate::rng::mix(d, crate::rng::hash_str(1, p));
+                    d = crate::rng::mix(d, crate::rng::hash_bytes(2, b));
+                }
+            }
+            (r.outcome.succeeded(), d)
+        };
+        // Simulated outcomes.
+        let simulated: BTreeSet<(bool, u64)> = std::thread::scope(|s| {
+            s.spawn(|| {
+                crate::case::execute(&mut scratch, &case)
+                    .iter()
+                    .flatten()
+                    .map(digest)
+                    .collect()
+            })
+            .join()
+            .unwrap()
+        });
+        // Real hash orders.
+        let spec = case.builds[0].clone();
+        let world = case.worlds[0].clone();
+        let real: Vec<(bool, u64)> = std::thread::scope(|s| {
+            let handles: Vec<_> = (0..threads)
+                .map(|t| {
+                    let spec = spec.clone();
+                    let world = world.clone();
+                    s.spawn(move || {
+                        let mut scratch =
+                            crate::run::Scratch::for_thread(index * 1000 + t as u64);
+                        let mut spec = spec;
+                        spec.repeat = 1;
+                        spec.entry = crate::run::Entry::LibBuild;
+                        let r = crate::run::run_build_with(&mut scratch, &world, &spec, false);
+                        digest(&r[0])
+                    })
+                })
+                .collect();
+            handles.into_iter().map(|h| h.join().unwrap()).collect()
+        });
+        worlds += 1;
+        real_runs += real.len() as u64;
+        let distinct: BTreeSet<_> = real.iter().copied().collect();
+        real_distinct_outcomes += distinct.len() as u64;
+        for r in distinct {
+            if !simulated.contains(&r) {
+                missing += 1;
+                println!(
+                    "audit: world of case {index} ({}): an outcome under real hash order was not produced by any simulated schedule",
+                    case.family
+                );
+            }
+        }
+    }
+    println!(
+        "audit: {worlds} worlds, {real_runs} builds under real RandomState on fresh threads, {real_distinct_outcomes} distinct outcomes, {missing} not covered by the simulated schedules"
+    );
+    if missing > 0 {
+        println!("harness error: a source of nondeterminism is not behind a seam");
+        2
+    } else {
+        0
+    }
+}
+
+pub fn main(args: &[String]) -> i32 {
+    let what = args.first().map(|s| s.as_str()).unwrap_or("");
+    let mut rest: Vec<String> = args.iter().skip(1).cloned().collect();
+    match what {
+        "determinism" => {
+            if rest.is_empty() {
+                rest = crate::props::CLAIMED.iter().map(|s| s.to_string()).collect();
+            }
+            determinism(&rest, 2000)
+        }
+        "audit" => audit(
+            rest.first().and_then(|s| s.parse().ok()).unwrap_or(400),
+            32,
+        ),
+        _ => {
+            eprintln!("usage: pyxis-sim selfcheck determinism [property...] | audit [worlds]");
+            2
+        }
+    }
 }
